@@ -210,9 +210,8 @@ Proof. unfold set_var, var_stage. destruct (nth_error (e_vars E) i) as [[v g]|] 
 
 Lemma wf_vars_sub (E : Env) m n : wf_vars E m -> subt n m -> cnode n -> vars_below E n.
 Proof. induction m; simpl; intros Wf [->|S] C; simpl in *; try tauto.
-  - destruct S; [apply IHm1 | apply IHm2]; tauto.
-  - destruct S; [apply IHm1 | apply IHm2]; tauto.
-  - apply IHm; tauto. Qed.
+  all: try (destruct S as [S|S]; [apply IHm1 | apply IHm2]; tauto).
+  all: try (apply IHm; tauto). Qed.
 
 Lemma J_set_var (E : Env) i x m : env_wf E -> vars_pos E -> wf_vars E m -> J E m -> J (set_var E i x) m.
 Proof. intros W P Wf. unfold set_var. destruct (nth_error (e_vars E) i) as [[v g]|] eqn:Ei; auto.
@@ -231,20 +230,397 @@ Proof. intros H. induction m; simpl; auto.
   - intros (A & B & C). repeat split; auto. intros i g Oi Vi. rewrite H in Vi. apply (C i g); auto.
   - intros (A & C). split; auto. intros i g Oi Vi. rewrite H in Vi. apply (C i g); auto. Qed.
 
+(* ------------------------------------------------------------------ the shape of a tree (cache contents erased) *)
+Fixpoint erase (m : Tree) : Tree :=
+  match m with
+  | MSin a w p _ _ _ _ => mk_sin ROps a w p
+  | MPlus l r _ => mk_plus ROps (erase l) (erase r)
+  | MMinus l r _ => mk_minus ROps (erase l) (erase r)
+  | MScale f e _ => mk_scale ROps f (erase e)
+  | x => x
+  end.
+Lemma dep_erase m : dep (erase m) = dep m.
+Proof. induction m; simpl; auto. Qed.
+Lemma den_erase (E : Env) m : den E (erase m) = den E m.
+Proof. induction m; simpl; congruence. Qed.
+Lemma occurs_erase i m : occurs i (erase m) <-> occurs i m.
+Proof. induction m; simpl; tauto. Qed.
+Lemma vars_below_erase (E : Env) m : vars_below E (erase m) <-> vars_below E m.
+Proof. unfold vars_below. split; intros H i g O V.
+  - rewrite <- dep_erase. apply (H i g); auto. apply occurs_erase; auto.
+  - rewrite dep_erase. apply (H i g); auto. apply occurs_erase; auto. Qed.
+Lemma wf_erase (E : Env) m : wf_vars E (erase m) <-> wf_vars E m.
+Proof. induction m; try (simpl; tauto).
+  - change (wf_vars E (erase m1) /\ wf_vars E (erase m2) /\ vars_below E (erase (MPlus m1 m2 c)) <->
+            wf_vars E m1 /\ wf_vars E m2 /\ vars_below E (MPlus m1 m2 c)).
+    rewrite IHm1, IHm2, vars_below_erase. tauto.
+  - change (wf_vars E (erase m1) /\ wf_vars E (erase m2) /\ vars_below E (erase (MMinus m1 m2 c)) <->
+            wf_vars E m1 /\ wf_vars E m2 /\ vars_below E (MMinus m1 m2 c)).
+    rewrite IHm1, IHm2, vars_below_erase. tauto.
+  - change (wf_vars E (erase m) /\ vars_below E (erase (MScale f m c)) <-> wf_vars E m /\ vars_below E (MScale f m c)).
+    rewrite IHm, vars_below_erase. tauto. Qed.
+Lemma same_shape_dep m m' : erase m' = erase m -> dep m' = dep m.
+Proof. intros H. rewrite <- (dep_erase m'), H. apply dep_erase. Qed.
+Lemma same_shape_den (E : Env) m m' : erase m' = erase m -> den E m' = den E m.
+Proof. intros H. rewrite <- (den_erase E m'), H. apply den_erase. Qed.
+Lemma same_shape_wf (E : Env) m m' : erase m' = erase m -> wf_vars E m -> wf_vars E m'.
+Proof. intros H W. apply wf_erase. rewrite H. apply wf_erase; auto. Qed.
+
 (* ------------------------------------------------------------------ getValue *)
+Lemma tget_erase (E : Env) m : erase (snd (tget ROps E m)) = erase m.
+Proof. induction m; simpl; auto.
+  - unfold get_ce. destruct (valid E 4 c0); reflexivity.
+  - destruct (valid E (Nat.max (dep m1) (dep m2)) c); auto.
+    destruct (tget ROps E m1) as [a l']. destruct (tget ROps E m2) as [b r']. simpl in *. congruence.
+  - destruct (valid E (Nat.max (dep m1) (dep m2)) c); auto.
+    destruct (tget ROps E m1) as [a l']. destruct (tget ROps E m2) as [b r']. simpl in *. congruence.
+  - destruct (valid E (dep m) c); auto.
+    destruct (tget ROps E m) as [a e']. simpl in *. congruence. Qed.
+
+Lemma okc_mark (E : Env) D v : D <= e_stage E -> okc E D (mark E D v) v.
+Proof. intros S. unfold okc, mark, fresh. simpl. split; auto. Qed.
+
 Lemma tget_correct (E : Env) m : dep m <= e_stage E -> J E m -> fst (tget ROps E m) = den E m /\ J E (snd (tget ROps E m)).
-Proof. induction m; simpl; intros S Jm; auto.
-  - destruct Jm as (A0 & A1 & A2 & A3). unfold get_ce.
+Proof. induction m; intros S Jm; try (simpl; auto; fail).
+  - simpl in *. destruct Jm as (A0 & A1 & A2 & A3). unfold get_ce.
     destruct (valid E 4 c0) eqn:V; simpl.
-    + apply valid_fresh in V. destruct V as [_ F]. destruct A0 as [_ B]. destruct (B F). auto.
-    + split; auto. repeat split; auto; simpl; try lia. unfold ver_at. lia.
-  - destruct Jm as (A & B & C).
-    destruct (valid E (Nat.max (dep m1) (dep m2)) c) eqn:V; simpl.
-    + apply valid_fresh in V. destruct V as [_ F]. destruct C as [_ C]. destruct (C F). simpl; auto.
+    + apply valid_fresh in V. destruct V as [_ F]. destruct A0 as [A0' B]. destruct (B F). split; auto.
+      split; [split|]; auto.
+    + split; auto. split; [|split; [|split]]; auto. apply (okc_mark E 4); lia.
+  - simpl in S. destruct Jm as (A & B & C).
+    pose proof (tget_erase E m1) as Sh1. pose proof (tget_erase E m2) as Sh2.
+    cbn [tget]. cbn [dep] in *.
+    destruct (valid E (Nat.max (dep m1) (dep m2)) c) eqn:V.
+    + apply valid_fresh in V. destruct V as [_ F]. destruct C as [C' C]. destruct (C F) as [_ Cv]. split; [exact Cv|].
+      cbn [snd J dep]. split; [|split]; auto. split; auto.
     + destruct (IHm1 ltac:(lia) A) as [E1 J1]. destruct (IHm2 ltac:(lia) B) as [E2 J2].
-      destruct (tget ROps E m1) as [a l'] eqn:T1. destruct (tget ROps E m2) as [b r'] eqn:T2. simpl in *.
-      subst a b. split; auto.
-      assert (D1 : dep l' = dep m1) by admit. admit.
-  - admit.
-  - admit.
-Admitted.
+      destruct (tget ROps E m1) as [a l']. destruct (tget ROps E m2) as [b r']. cbn [fst snd] in *.
+      subst a b. split; [reflexivity|]. cbn [J dep den]. split; [|split]; auto.
+      rewrite (same_shape_dep _ _ Sh1), (same_shape_dep _ _ Sh2), (same_shape_den E _ _ Sh1), (same_shape_den E _ _ Sh2).
+      apply okc_mark; auto.
+  - simpl in S. destruct Jm as (A & B & C).
+    pose proof (tget_erase E m1) as Sh1. pose proof (tget_erase E m2) as Sh2.
+    cbn [tget]. cbn [dep] in *.
+    destruct (valid E (Nat.max (dep m1) (dep m2)) c) eqn:V.
+    + apply valid_fresh in V. destruct V as [_ F]. destruct C as [C' C]. destruct (C F) as [_ Cv]. split; [exact Cv|].
+      cbn [snd J dep]. split; [|split]; auto. split; auto.
+    + destruct (IHm1 ltac:(lia) A) as [E1 J1]. destruct (IHm2 ltac:(lia) B) as [E2 J2].
+      destruct (tget ROps E m1) as [a l']. destruct (tget ROps E m2) as [b r']. cbn [fst snd] in *.
+      subst a b. split; [reflexivity|]. cbn [J dep den]. split; [|split]; auto.
+      rewrite (same_shape_dep _ _ Sh1), (same_shape_dep _ _ Sh2), (same_shape_den E _ _ Sh1), (same_shape_den E _ _ Sh2).
+      apply okc_mark; auto.
+  - simpl in S. destruct Jm as (A & C).
+    pose proof (tget_erase E m) as Sh.
+    cbn [tget]. cbn [dep] in *.
+    destruct (valid E (dep m) c) eqn:V.
+    + apply valid_fresh in V. destruct V as [_ F]. destruct C as [C' C]. destruct (C F) as [_ Cv]. split; [exact Cv|].
+      cbn [snd J dep]. split; auto. split; auto.
+    + destruct (IHm ltac:(lia) A) as [E1 J1].
+      destruct (tget ROps E m) as [a e']. cbn [fst snd] in *.
+      subst a. split; [reflexivity|]. cbn [J dep den]. split; auto.
+      rewrite (same_shape_dep _ _ Sh), (same_shape_den E _ _ Sh).
+      apply okc_mark; auto. Qed.
+
+(* ------------------------------------------------------------------ derivative orders and handles to inner nodes *)
+Lemma tget_k_correct (E : Env) m k : dep_k m k <= e_stage E -> k_ok m k = true -> J E m ->
+  fst (tget_k ROps E m k) = den_k E m k /\ J E (snd (tget_k ROps E m k)) /\ erase (snd (tget_k ROps E m k)) = erase m.
+Proof. intros S Kok Jm. destruct k as [|k'].
+  - simpl in *. assert (S' : dep m <= e_stage E) by (destruct m; exact S).
+    destruct (tget_correct E m S' Jm). split; auto. split; auto. apply tget_erase.
+  - destruct m; try (simpl; auto; fail); try (simpl in Kok; discriminate).
+    simpl in S, Kok. destruct Jm as (A0 & A1 & A2 & A3).
+    destruct k' as [|[|k'']]; cbn [tget_k den_k]; unfold get_ce.
+    + destruct (valid E 4 c1) eqn:V; cbn [fst snd J erase].
+      * apply valid_fresh in V. destruct V as [_ F]. destruct A1 as [A1' B]. destruct (B F).
+        split; auto. split; auto. split; [|split; [|split]]; auto. split; auto.
+      * split; auto. split; auto. split; [|split; [|split]]; auto. apply (okc_mark E 4); lia.
+    + destruct (valid E 4 c2) eqn:V; cbn [fst snd J erase].
+      * apply valid_fresh in V. destruct V as [_ F]. destruct A2 as [A2' B]. destruct (B F).
+        split; auto. split; auto. split; [|split; [|split]]; auto. split; auto.
+      * split; auto. split; auto. split; [|split; [|split]]; auto. apply (okc_mark E 4); lia.
+    + destruct (valid E 4 c3) eqn:V; cbn [fst snd J erase].
+      * apply valid_fresh in V. destruct V as [_ F]. destruct A3 as [A3' B]. destruct (B F).
+        split; auto. split; auto. split; [|split; [|split]]; auto. split; auto.
+      * split; auto. split; auto. split; [|split; [|split]]; auto. apply (okc_mark E 4); lia. Qed.
+
+Fixpoint subtree (path : list bool) (m : Tree) : option Tree :=
+  match path with
+  | [] => Some m
+  | b :: rest => match m with
+                 | MPlus l r _ | MMinus l r _ => subtree rest (if b then r else l)
+                 | MScale _ e _ => if b then None else subtree rest e
+                 | _ => None
+                 end
+  end.
+
+Lemma J_same_shape_node (E : Env) D D' c v v' : D' = D -> v' = v -> okc E D c v -> okc E D' c v'.
+Proof. intros -> ->; auto. Qed.
+
+Lemma tget_at_correct (E : Env) k : forall path m n, J E m -> subtree path m = Some n ->
+  dep_k n k <= e_stage E -> k_ok n k = true ->
+  exists v m', tget_at ROps E path k m = Some (v, m') /\ v = den_k E n k /\ J E m' /\ erase m' = erase m.
+Proof. induction path as [|b rest IH]; intros m n Jm Sub S Kok.
+  - simpl in Sub. injection Sub as <-. simpl. rewrite Kok.
+    replace (pred (dep_k m k) <=? e_stage E) with true by (symmetry; apply Nat.leb_le; lia). simpl.
+    destruct (tget_k_correct E m k S Kok Jm) as (A & B & C).
+    destruct (tget_k ROps E m k) as [v m'] eqn:T. simpl in *. exists v, m'. auto.
+  - destruct m; simpl in Sub; try discriminate.
+    + destruct Jm as (A & B & C). destruct b.
+      * destruct (IH m2 n B Sub S Kok) as (v & r' & T & V & Jr & Sh). exists v, (MPlus m1 r' c).
+        cbn [tget_at]. rewrite T. simpl. split; auto. split; auto. split.
+        { split; [|split]; auto. eapply J_same_shape_node; [| |exact C]; cbn [dep den];
+          [rewrite (same_shape_dep _ _ Sh) | rewrite (same_shape_den E _ _ Sh)]; reflexivity. }
+        simpl. rewrite Sh. reflexivity.
+      * destruct (IH m1 n A Sub S Kok) as (v & l' & T & V & Jl & Sh). exists v, (MPlus l' m2 c).
+        cbn [tget_at]. rewrite T. simpl. split; auto. split; auto. split.
+        { split; [|split]; auto. eapply J_same_shape_node; [| |exact C]; cbn [dep den];
+          [rewrite (same_shape_dep _ _ Sh) | rewrite (same_shape_den E _ _ Sh)]; reflexivity. }
+        simpl. rewrite Sh. reflexivity.
+    + destruct Jm as (A & B & C). destruct b.
+      * destruct (IH m2 n B Sub S Kok) as (v & r' & T & V & Jr & Sh). exists v, (MMinus m1 r' c).
+        cbn [tget_at]. rewrite T. simpl. split; auto. split; auto. split.
+        { split; [|split]; auto. eapply J_same_shape_node; [| |exact C]; cbn [dep den];
+          [rewrite (same_shape_dep _ _ Sh) | rewrite (same_shape_den E _ _ Sh)]; reflexivity. }
+        simpl. rewrite Sh. reflexivity.
+      * destruct (IH m1 n A Sub S Kok) as (v & l' & T & V & Jl & Sh). exists v, (MMinus l' m2 c).
+        cbn [tget_at]. rewrite T. simpl. split; auto. split; auto. split.
+        { split; [|split]; auto. eapply J_same_shape_node; [| |exact C]; cbn [dep den];
+          [rewrite (same_shape_dep _ _ Sh) | rewrite (same_shape_den E _ _ Sh)]; reflexivity. }
+        simpl. rewrite Sh. reflexivity.
+    + destruct Jm as (A & C). destruct b; try discriminate.
+      destruct (IH m n A Sub S Kok) as (v & e' & T & V & Je & Sh). exists v, (MScale f e' c).
+      cbn [tget_at]. rewrite T. simpl. split; auto. split; auto. split.
+      { split; auto. eapply J_same_shape_node; [| |exact C]; cbn [dep den];
+        [rewrite (same_shape_dep _ _ Sh) | rewrite (same_shape_den E _ _ Sh)]; reflexivity. }
+      simpl. rewrite Sh. reflexivity. Qed.
+
+(* ------------------------------------------------------------------ the whole state *)
+Notation St := (@st R).
+Notation Op := (@op R).
+
+Record Inv (s : St) : Prop := mkInv {
+  inv_wf : env_wf (s_env s); inv_pos : vars_pos (s_env s);
+  inv_J : Forall (J (s_env s)) (s_trees s); inv_wfv : Forall (wf_vars (s_env s)) (s_trees s) }.
+
+Definition pres (E E' : Env) : Prop :=
+  env_wf E -> vars_pos E ->
+  env_wf E' /\ vars_pos E' /\ forall m, wf_vars E m -> J E m -> wf_vars E' m /\ J E' m.
+
+Lemma pres_refl E : pres E E. Proof. intros W P. auto. Qed.
+Lemma pres_trans E1 E2 E3 : pres E1 E2 -> pres E2 E3 -> pres E1 E3.
+Proof. intros A B W P. destruct (A W P) as (W2 & P2 & H2). destruct (B W2 P2) as (W3 & P3 & H3).
+  split; auto. split; auto. intros m Wf Jm. destruct (H2 m Wf Jm). apply H3; auto. Qed.
+Lemma pres_inval (E : Env) g : 1 <= g -> pres E (inval E g).
+Proof. intros G W P. split; [apply inval_wf; auto|]. split.
+  - intros i g' V. unfold var_stage in V. rewrite inval_vars in V. apply (P i); auto.
+  - intros m Wf Jm. split; [|apply J_inval; auto].
+    apply (wf_vars_stage_indep E); auto. intros i. unfold var_stage. rewrite inval_vars. reflexivity. Qed.
+Lemma pres_set_stage (E : Env) g : e_stage E <= g -> pres E (set_stage E g).
+Proof. intros L W P. split; [exact W|]. split; [exact P|]. intros m Wf Jm. split; [|apply J_set_stage; auto].
+  apply (wf_vars_stage_indep E); auto. Qed.
+Lemma pres_set_time (E : Env) x : pres E (set_time E x).
+Proof. intros W P. split; [|split].
+  - unfold env_wf, set_time. simpl. apply inval_wf; auto.
+  - intros i g V. unfold var_stage, set_time in V. simpl in V. rewrite inval_vars in V. apply (P i); auto.
+  - intros m Wf Jm. split; [|apply J_set_time; auto].
+    apply (wf_vars_stage_indep E); auto. intros i. unfold var_stage, set_time. simpl. rewrite inval_vars. reflexivity. Qed.
+Lemma set_var_wf (E : Env) i x : env_wf E -> env_wf (set_var E i x).
+Proof. unfold set_var. destruct (nth_error (e_vars E) i) as [[v g]|]; auto. intros W. unfold env_wf. simpl. apply inval_wf; auto. Qed.
+Lemma pres_set_var (E : Env) i x : pres E (set_var E i x).
+Proof. intros W P. split; [apply set_var_wf; auto|]. split.
+  - intros j g V. rewrite var_stage_set_var in V. apply (P j); auto.
+  - intros m Wf Jm. split; [|apply J_set_var; auto].
+    apply (wf_vars_stage_indep E); auto. intros j. apply var_stage_set_var. Qed.
+
+Lemma pdep_pos (e : @pexpr R) : 1 <= pdep e.
+Proof. induction e; simpl; lia. Qed.
+Lemma vdep_pos (s : @vsrc R) : 1 <= vdep s.
+Proof. destruct s as [|e [|e' r]]; simpl; try lia. apply pdep_pos. Qed.
+
+Lemma pres_mach_init (E : Env) acc m : pres E (fst (mach_init ROps (E, acc) m)).
+Proof. destruct m as [x|d|f]; simpl.
+  - eapply pres_trans; [apply (pres_set_stage E (Nat.max (e_stage E) (vdep (x_src x)))); lia|].
+    apply pres_inval; lia.
+  - eapply pres_trans; [apply (pres_inval E 9); lia|].
+    apply pres_set_stage; lia.
+  - eapply pres_trans; [apply (pres_inval E (vdep (f_src f))); apply vdep_pos|].
+    apply pres_set_stage; lia. Qed.
+Lemma pres_init (ms : list (@mach R)) : forall (E : Env) acc, pres E (fst (fold_left (mach_init ROps) ms (E, acc))).
+Proof. induction ms as [|m r IH]; intros E acc; cbn [fold_left]; [apply pres_refl|].
+  destruct (mach_init ROps (E, acc) m) as [E1 acc1] eqn:M.
+  eapply pres_trans; [|apply IH]. pose proof (pres_mach_init E acc m) as Q. rewrite M in Q. exact Q. Qed.
+
+Lemma Inv_env (s : St) E' ms : pres (s_env s) E' -> Inv s -> Inv (mkSt E' (s_trees s) ms).
+Proof. intros Pr [W P Jt Wt]. destruct (Pr W P) as (W' & P' & H). constructor; simpl; auto.
+  - rewrite Forall_forall in *. intros m Hm. apply H; auto.
+  - rewrite Forall_forall in *. intros m Hm. apply H; auto. Qed.
+
+Lemma Forall_upd_nth {A} (P : A -> Prop) (l : list A) : forall i x y, Forall P l -> nth_error l i = Some x -> P y ->
+  Forall P (upd_nth i (fun _ => y) l).
+Proof. induction l; intros i x y F N Py; destruct i; simpl in *; try discriminate; inversion F; subst; constructor; eauto. Qed.
+
+(** proviso (a): values are asked for only when the state is realized to the node's depends-on stage *)
+Definition well_staged (s : St) (o : Op) : Prop :=
+  match o with
+  | GetT i path k => forall m n, nth_error (s_trees s) i = Some m -> subtree path m = Some n -> k_ok n k = true ->
+                                 dep_k n k <= e_stage (s_env s)
+  | Inval g => 1 <= g          (* the code rejects invalidateAllCacheAtOrAbove below Instance *)
+  | _ => True
+  end.
+
+Lemma tget_at_none_or (E : Env) k : forall path m, subtree path m = None -> tget_at ROps E path k m = None.
+Proof. induction path as [|b rest IH]; intros m; simpl; [discriminate|].
+  destruct m; auto; destruct b; intros H; try rewrite (IH _ H); auto. Qed.
+Lemma tget_at_kok (E : Env) k : forall path m n, subtree path m = Some n -> k_ok n k = false -> tget_at ROps E path k m = None.
+Proof. induction path as [|b rest IH]; intros m n; simpl.
+  - intros [= <-] K. rewrite K. reflexivity.
+  - destruct m; try discriminate; destruct b; intros H K; try discriminate; rewrite (IH _ _ H K); auto. Qed.
+
+Lemma step_inv (s : St) (o : Op) : Inv s -> well_staged s o -> Inv (fst (step ROps s o)).
+Proof. intros I Ws. destruct o as [x0|g| |g| |i x0|j v0|i path k|j|j]; simpl.
+  - apply Inv_env; auto. apply pres_set_time.
+  - destruct (g <=? e_stage (s_env s)) eqn:L; simpl; [destruct s; exact I|].
+    apply Nat.leb_gt in L. apply Inv_env; auto. apply pres_set_stage; lia.
+  - apply Inv_env; auto. apply pres_refl.
+  - apply Inv_env; auto. apply pres_inval; exact Ws.
+  - destruct (fold_left (mach_init ROps) (s_machs s) (s_env s, [])) as [E' ms] eqn:F. simpl.
+    apply Inv_env; auto. pose proof (pres_init (s_machs s) (s_env s) []) as Q. rewrite F in Q. exact Q.
+  - apply Inv_env; auto. apply pres_set_var.
+  - destruct (nth_error (s_machs s) j) as [[x|d|f]|]; simpl; try (destruct s; exact I).
+    apply Inv_env; auto. apply pres_inval; lia.
+  - destruct (nth_error (s_trees s) i) as [m|] eqn:N; simpl; [|destruct s; exact I].
+    destruct (subtree path m) as [n|] eqn:Sub.
+    + destruct (k_ok n k) eqn:K.
+      * destruct I as [W P Jt Wt].
+        assert (Jm : J (s_env s) m) by (rewrite Forall_forall in Jt; apply Jt; eapply nth_error_In; eauto).
+        destruct (tget_at_correct (s_env s) k path m n Jm Sub (Ws m n N Sub K) K) as (v & m' & T & V & Jm' & Sh).
+        rewrite T. simpl. constructor; simpl; auto.
+        -- eapply Forall_upd_nth; eauto.
+        -- eapply Forall_upd_nth; eauto. eapply same_shape_wf; eauto.
+           rewrite Forall_forall in Wt; apply Wt; eapply nth_error_In; eauto.
+      * rewrite (tget_at_kok _ _ _ _ _ Sub K). destruct s; exact I.
+    + rewrite (tget_at_none_or _ _ _ _ Sub). destruct s; exact I.
+  - destruct (nth_error (s_machs s) j) as [mm|]; simpl; [|destruct s; exact I].
+    destruct (negb (mach_dep mm <=? e_stage (s_env s))); simpl; [destruct s; exact I|].
+    destruct mm as [x|d|f]; simpl.
+    + destruct (x_ensure ROps (s_env s) x) as [fd x']. simpl. apply Inv_env; auto. apply pres_refl.
+    + destruct (d_get ROps (s_env s) d) as [v d']. simpl. apply Inv_env; auto. apply pres_refl.
+    + apply Inv_env; auto. apply pres_refl.
+  - destruct (nth_error (s_machs s) j) as [[x|d|f]|]; simpl; try (destruct s; exact I).
+    destruct (negb (vdep (x_src x) <=? e_stage (s_env s))); simpl; [destruct s; exact I|].
+    destruct (x_ensure ROps (s_env s) x) as [fd x']. simpl. apply Inv_env; auto. apply pres_refl. Qed.
+
+Lemma step_obs (s : St) i path k m n : Inv s -> nth_error (s_trees s) i = Some m -> subtree path m = Some n ->
+  k_ok n k = true -> dep_k n k <= e_stage (s_env s) ->
+  snd (step ROps s (GetT i path k)) = OVal [den_k (s_env s) n k].
+Proof. intros [W P Jt Wt] N Sub K S. simpl. rewrite N.
+  assert (Jm : J (s_env s) m) by (rewrite Forall_forall in Jt; apply Jt; eapply nth_error_In; eauto).
+  destruct (tget_at_correct (s_env s) k path m n Jm Sub S K) as (v & m' & T & V & _).
+  rewrite T. simpl. rewrite V. reflexivity. Qed.
+
+(** what is claimed of each observation: a value request for an existing node, of an order the measure offers, returns
+    the formula value (derivative) at the current time and variable values *)
+Definition obs_ok (s : St) (o : Op) (b : @obs R) : Prop :=
+  match o with
+  | GetT i path k => forall m n, nth_error (s_trees s) i = Some m -> subtree path m = Some n -> k_ok n k = true ->
+                                 b = OVal [den_k (s_env s) n k]
+  | _ => True
+  end.
+Fixpoint ws_run (s : St) (ops : list Op) : Prop :=
+  match ops with [] => True | o :: r => well_staged s o /\ ws_run (fst (step ROps s o)) r end.
+Fixpoint obs_run (s : St) (ops : list Op) : Prop :=
+  match ops with [] => True | o :: r => obs_ok s o (snd (step ROps s o)) /\ obs_run (fst (step ROps s o)) r end.
+
+Lemma arith_eval_correct (s : St) (ops : list Op) : Inv s -> ws_run s ops -> obs_run s ops.
+Proof. revert s. induction ops as [|o r IH]; intros s I Ws; simpl; auto. destruct Ws as [W1 W2]. split.
+  - destruct o; simpl; auto. intros m n N Sub K. apply (step_obs s i path k m n); auto. apply (W1 m n); auto.
+  - apply IH; auto. apply step_inv; auto. Qed.
+
+(** [obs_run] speaks about exactly the observations [run] returns *)
+Lemma run_obs_nth (s : St) (ops : list Op) : forall j o, nth_error ops j = Some o ->
+  exists sj, nth_error (snd (run ROps s ops)) j = Some (snd (step ROps sj o)) /\
+             (obs_run s ops -> obs_ok sj o (snd (step ROps sj o))).
+Proof. revert s. induction ops as [|o' r IH]; intros s j o N; [destruct j; discriminate|].
+  cbn [run]. destruct (step ROps s o') as [s1 b] eqn:St1. destruct (run ROps s1 r) as [s2 bs] eqn:R.
+  destruct j as [|j'].
+  - simpl in N. injection N as ->. exists s. rewrite St1. simpl. split; auto. rewrite St1. simpl. tauto.
+  - simpl in N. destruct (IH s1 j' o N) as (sj & A & B). exists sj. rewrite R in A. simpl. split; auto.
+    rewrite St1. simpl. intros [_ H]. auto. Qed.
+
+(** freshly constructed trees (realizeTopology) satisfy the invariant *)
+Lemma J_erase_env0 t vars m : J (env0 t vars) (erase m).
+Proof. assert (Z : forall D v, D <= 10 -> okc (env0 t vars) D (c0 ROps) v).
+  { intros D v L. unfold okc, fresh, c0, ce0, ver_at, env0. simpl. split; [lia|].
+    intros [F _]. exfalso. do 11 (destruct D as [|D]; [simpl in F; discriminate|]). lia. }
+  induction m; simpl; auto.
+  - split; [|split; [|split]]; apply Z; lia.
+  - split; [|split]; auto. apply Z. pose proof (dep_le4 (erase m1)); pose proof (dep_le4 (erase m2)); lia.
+  - split; [|split]; auto. apply Z. pose proof (dep_le4 (erase m1)); pose proof (dep_le4 (erase m2)); lia.
+  - split; auto. apply Z. pose proof (dep_le4 (erase m)); lia. Qed.
+Lemma Inv_init t vars trees machs :
+  (forall i g, var_stage (env0 t vars) i = Some g -> 1 <= g) ->
+  Forall (fun m => erase m = m) trees -> Forall (wf_vars (env0 t vars)) trees ->
+  Inv (mkSt (env0 t vars) trees machs).
+Proof. intros P Pr Wf. constructor; simpl; auto.
+  - reflexivity.
+  - rewrite Forall_forall in *. intros m Hm. rewrite <- (Pr m Hm). apply J_erase_env0. Qed.
+
+
+(* ------------------------------------------------------------------ examples and refutations *)
+(** evaluation of the model on concrete real inputs without unfolding the real-number operations *)
+Ltac rcbv := cbv - [Rplus Rmult Rminus Ropp Rdiv Rinv sin cos IZR Rle_dec Rlt_dec Rabs sqrt exp tanh Ratan2 Rleb Rltb].
+Ltac rcbv_in H := cbv - [Rplus Rmult Rminus Ropp Rdiv Rinv sin cos IZR Rle_dec Rlt_dec Rabs sqrt exp tanh Ratan2 Rleb Rltb] in H.
+Ltac ws_tac := rcbv; repeat split;
+  try (let m := fresh "m" in let n := fresh "n" in let E1 := fresh in let E2 := fresh in
+       intros m n E1; injection E1 as <-; rcbv; intros E2; injection E2 as <-; intros _; rcbv; lia).
+(** non-vacuity: 2*(Variable#0 (invalidates Time) + sin 3t), asked before and after a variable change and a time change *)
+Example arith_eval_correct_example :
+  let s := mkSt (env0 1%R [(5%R, 4)]) [mk_scale ROps 2%R (mk_plus ROps (MVar 0) (mk_sin ROps 1%R 3%R 0%R))] [] in
+  let ops := [Realize 8; GetT 0 [] 0; SetVar 0 7%R; Realize 4; GetT 0 [] 0; SetTime 2%R; Realize 8; GetT 0 [false] 0;
+              GetT 0 [false; true] 2; GetT 0 [] 0] in
+  Inv s /\ ws_run s ops /\ obs_run s ops /\
+  nth_error (snd (run ROps s ops)) 9 = Some (OVal [2 * (7 + 1 * sin (3 * 2 + 0))])%R.
+Proof. intros s ops.
+  assert (I : Inv s).
+  { apply Inv_init.
+    - intros [|i] g; unfold var_stage; simpl; [intros [= <-]; lia | destruct i; discriminate].
+    - repeat constructor.
+    - constructor; [|constructor].
+      assert (VB : forall m : Tree, 4 <= dep m -> vars_below (env0 1%R [(5%R, 4)]) m).
+      { intros m D [|i] g _; unfold var_stage; simpl; [intros [= <-]; lia | destruct i; discriminate]. }
+      simpl. repeat split; apply VB; simpl; lia. }
+  assert (W : ws_run s ops) by (unfold s, ops; ws_tac).
+  split; auto. split; auto. split; [apply arith_eval_correct; auto|].
+  unfold s, ops. rcbv. reflexivity. Qed.
+
+(** proviso (b) cannot be dropped (known finding variable-change-leaves-dependents-valid): Plus(Variable=5, Time) at t=1
+    with a Variable that invalidates Position; after setValue(100) the measure still reports 6 *)
+Lemma arith_eval_refuted_variable : exists (s : St) (ops : list Op),
+  env_wf (s_env s) /\ vars_pos (s_env s) /\ Forall (J (s_env s)) (s_trees s) /\ ws_run s ops /\ ~ obs_run s ops.
+Proof.
+  exists (mkSt (env0 1%R [(5%R, 5)]) [mk_plus ROps (MVar 0) MTime] []).
+  exists ([Realize 8; GetT 0 [] 0; SetVar 0 100%R; Realize 8; GetT 0 [] 0]).
+
+  split; [reflexivity|]. split.
+  { intros [|i] g; unfold var_stage; simpl; [intros [= <-]; lia | destruct i; discriminate]. }
+  split. { constructor; [|constructor]. apply (J_erase_env0 1%R [(5%R, 5)] (mk_plus ROps (MVar 0) MTime)). }
+  split. { ws_tac. }
+  intros H. rcbv_in H. destruct H as (_ & _ & _ & _ & H5 & _).
+  pose proof (H5 _ _ eq_refl eq_refl eq_refl) as Q. injection Q. lra. Qed.
+
+(** proviso (a) cannot be dropped (known finding getvalue-one-stage-early-survives-time-change): every request below passes
+    the code's own stage check (none is refused), yet the last one reports 11 where the formula gives 12 *)
+Lemma arith_eval_refuted_early_get : exists (s : St) (ops : list Op),
+  Inv s /\ (forall j, nth_error (snd (run ROps s ops)) j <> Some OGuard) /\ ~ obs_run s ops.
+Proof.
+  exists (mkSt (env0 1%R []) [mk_plus ROps MTime (MConst 10%R)] []).
+  exists ([Realize 3; GetT 0 [] 0; SetTime 2%R; Realize 4; GetT 0 [] 0]).
+  split.
+  { apply Inv_init.
+    - intros [|i] g; unfold var_stage; simpl; discriminate.
+    - repeat constructor.
+    - constructor; [|constructor]. simpl. repeat split. intros [|i] g _; unfold var_stage; simpl; discriminate. }
+  split.
+  { intros j. rcbv. do 5 (destruct j as [|j]; [discriminate|]). destruct j; discriminate. }
+  intros H. rcbv_in H. destruct H as (_ & _ & _ & _ & H5 & _).
+  pose proof (H5 _ _ eq_refl eq_refl eq_refl) as Q. injection Q. lra. Qed.
